@@ -20,8 +20,35 @@ fn instant(s: u64) -> String {
     format!("{} iso {}", pr_dt(&dt), iso(s))
 }
 
+/// logt <s>:<y>:<m>:<d> ... : events with these instants go through the library's `log` function to a channel
+/// logger and are rendered with LogEvent::write_jsonl in the order given, on one thread; prints the `time`
+/// member of every line (the rendering clause of C16 for log lines, whatever was rendered before)
+fn logt(toks: &[&str]) -> String {
+    use servlin::log::internal::{log, LogEvent};
+    use servlin::log::{set_global_logger, Level};
+    let (tx, rx) = std::sync::mpsc::sync_channel::<LogEvent>(toks.len() + 1);
+    let Ok(guard) = set_global_logger(tx) else { return "logger-already-set".to_string() };
+    for t in toks {
+        let s: u64 = t.split(':').next().unwrap().parse().unwrap();
+        if log(SystemTime::UNIX_EPOCH + Duration::from_secs(s), Level::Info, ()).is_err() {
+            return "logger-stopped".to_string();
+        }
+    }
+    drop(guard);
+    let mut out = Vec::new();
+    for ev in rx {
+        let mut line = Vec::new();
+        ev.write_jsonl(&mut line).unwrap();
+        let text = String::from_utf8_lossy(&line).to_string();
+        let v = text.split("\"time\":\"").nth(1).and_then(|r| r.split('"').next()).unwrap_or("?").to_string();
+        out.push(v);
+    }
+    out.join(" ")
+}
+
 fn main() {
     run_lines(|toks| match toks[0] {
+        "logt" => logt(&toks[1..]),
         "new" => instant(toks[1].parse::<u64>().unwrap()),
         "day" => {
             let k = toks[1].parse::<u64>().unwrap();
